@@ -2,7 +2,9 @@ package main
 
 import (
 	"fmt"
+	"go/ast"
 	"go/constant"
+	"go/printer"
 	"go/token"
 	"go/types"
 	"os"
@@ -10,6 +12,7 @@ import (
 	"sort"
 	"strings"
 
+	"golang.org/x/tools/go/ast/astutil"
 	"golang.org/x/tools/go/packages"
 	"golang.org/x/tools/go/ssa"
 	"golang.org/x/tools/go/ssa/ssautil"
@@ -30,6 +33,7 @@ type Program struct {
 	globInfo  map[*ssa.Global]*globalInfo
 	fset      *token.FileSet
 	assumed   []string
+	recSpec   map[string]bool
 }
 
 type globalInfo struct {
@@ -481,6 +485,40 @@ func (P *Program) globalInfo(g *ssa.Global) *globalInfo {
 		}
 	}
 	return gi
+}
+
+// caseLabel returns the text of the innermost switch-case label enclosing a
+// source position ("" if none).
+func (P *Program) caseLabel(pos token.Pos) string {
+	if !pos.IsValid() {
+		return ""
+	}
+	for _, pkg := range P.pkgs {
+		for _, f := range pkg.Syntax {
+			if f.Pos() <= pos && pos <= f.End() {
+				path, _ := astutil.PathEnclosingInterval(f, pos, pos)
+				for _, n := range path {
+					if cc, ok := n.(*ast.CaseClause); ok {
+						if cc.List == nil {
+							return "default"
+						}
+						var parts []string
+						for _, e := range cc.List {
+							var b strings.Builder
+							printer.Fprint(&b, P.fset, e)
+							parts = append(parts, b.String())
+						}
+						return strings.Join(parts, ",")
+					}
+					if _, ok := n.(*ast.FuncLit); ok {
+						return ""
+					}
+				}
+				return ""
+			}
+		}
+	}
+	return ""
 }
 
 // resolveType evaluates a type expression in the scope of a package.
